@@ -325,7 +325,14 @@ def run(res: Results, idx: Index, tier: str) -> None:
                 other_names = names_in(other)
                 casts_to_other = isinstance(tgt, ast.Attribute) and tgt.attr == "dtype" and bool(names_in(tgt) & du.closure(other_names))
                 if not casts_to_other:
-                    res.ok("R-C18b", site, key, f"`{src(cast_call, 60)}` is not a cast to the other operand's dtype", f.qualname)
+                    # a common dtype computed from BOTH operands (promote_types / result_type) only widens
+                    tnames = names_in(tgt) | du.closure(names_in(tgt))
+                    common = any(isinstance(c_, ast.Call) and (call_name(c_) or "").split(".")[-1] in ("promote_types", "result_type") for nm_ in (names_in(tgt) or set()) for v_ in du.values(nm_) for c_ in ast.walk(v_)) \
+                        or (isinstance(tgt, ast.Call) and (call_name(tgt) or "").split(".")[-1] in ("promote_types", "result_type"))
+                    if common and (names_in(cast_call.func.value) & tnames) and (du.closure(other_names) | other_names) & tnames:  # type: ignore[attr-defined]
+                        res.ok("R-C18b", site, key, f"`{src(cast_call, 60)}` widens to the common dtype of both operands", f.qualname)
+                    else:
+                        res.ok("R-C18b", site, key, f"`{src(cast_call, 60)}` is not a cast to the other operand's dtype", f.qualname)
                     continue
                 # same-kind test on both operands on the path
                 recv = cast_call.func.value  # type: ignore[attr-defined]
@@ -336,7 +343,8 @@ def run(res: Results, idx: Index, tier: str) -> None:
                         kinds |= names_in(e)
                 both = bool(names_in(recv) & kinds) and bool(names_in(tgt) & kinds)
                 if both:
-                    res.ok("R-C18b", site, key, f"`{src(cast_call, 60)}` only aligns widths: both operands are tested to be of the same kind on this path", f.qualname)
+                    res.violation("R-C18b", site, key, f"`{src(cast_call, 60)}` casts one comparison operand to the OTHER operand's width: when that is the narrower one a finite float64 model output overflows to inf "
+                                  "(or is rounded onto the reference) before it is compared — compare in the common (wider) dtype instead", f.qualname)
                 else:
                     res.violation("R-C18b", site, key, f"`{src(cast_call, 60)}` casts one comparison operand to the other's dtype without a same-kind test: a floating output compared with an integer/bool reference is truncated first, "
                                   "so a deviating model is reported as a match", f.qualname)
